@@ -2,7 +2,9 @@ import AiocoapModel.Basic.Bytes
 import AiocoapModel.Blockwise.BlockOpt
 import AiocoapModel.Blockwise.TimeoutDict
 /-!
-Model of the block-wise server machinery, as of the twelve `fix:` commits of C06 (the three of round 4:
+Model of the block-wise server machinery, as of the thirteen `fix:` commits of C06 (audit F: a request
+for the beginning drops the rendering kept under its block key when it arrives, so that a handler
+that returns something that is not a message leaves nothing to serve either; the three of round 4:
 the path a `Site` strips is part of the block key; an empty BERT block with the more flag fails the
 size test; of overlapping requests for the beginning the latest decides — `Overlap.lean`) on top of the
 pinned snapshot (ValueError → 4.08; later block never answered with the complete body; stale
@@ -15,11 +17,12 @@ none; an observable resource runs block-wise requests through the same spool and
 * `_extract_block_key`                     aiocoap/blockwise.py:18-35
   (`remote.blockwise_key` of the UDP remote: transports/udp6.py:263-265)
 * `Message.get_cache_key`                  aiocoap/message.py:382-415
-* `Message._extract_block`                 aiocoap/message.py:422-443
+* `Message._extract_block`                 aiocoap/message.py:423-446 (with the `and start > 0` of
+  aa9f1cc at :432)
 * `Message._append_request_block`          aiocoap/message.py:445-479
 * `BlockwiseTuple.is_valid_for_payload_size`  aiocoap/optiontypes.py:194-203
 * `Block1Spool.feed_and_take`              aiocoap/blockwise.py:60-101
-* `Block2Cache.extract_or_insert`          aiocoap/blockwise.py:104-174
+* `Block2Cache.extract_or_insert`          aiocoap/blockwise.py:124-196
 * `Resource._render_blockwise` / `_render_to_pipe`   aiocoap/interfaces.py:416-452
 * the entry of `ObservableResource._render_to_pipe`  aiocoap/interfaces.py:500-530
   (`ObsEntry`, `obsIn`: which requests take the way of `Resource._render_to_pipe`, and that the
@@ -322,6 +325,8 @@ def respondExtract (m : Msg) : Extract → Resp
 def respondOutcome : Outcome → Resp
   | .ok r => r
   | .error code => errResp code none
+  -- (a resource without block-wise assembly puts what `render` returned on the pipe as it is; what
+  -- becomes of a non-message there is not claimed: the driver answers `out-of-model`)
   | .junk => errResp INTERNAL_SERVER_ERROR none
 
 /-- `Resource._render_to_pipe` for one request, preceded by the timers of both dictionaries
